@@ -235,6 +235,7 @@ class Interp:
     def __init__(self, repo: Repo, overrides: tp.Optional[dict] = None, max_steps=400_000, max_depth=40):
         self.repo = repo
         self.overrides = dict(overrides or {})
+        self.eager_generators: set = set()
         self.max_steps = max_steps
         self.max_depth = max_depth
         self.steps = 0
@@ -342,6 +343,15 @@ class Interp:
             self._bind(fn.mod, node.args, args, kwargs, env, fn.closure)
             if isinstance(node, ast.Lambda):
                 return self.eval(fn.mod, node.body, env)
+            if f'{fn.mod.name}.{fn.__name__}' in self.eager_generators:
+                # vetted generator run to completion: the caller receives every yielded object
+                # afterwards, so a buffer shared between yields shows its final contents only
+                env.vars['__yielded__'] = out = []
+                try:
+                    self.exec_block(fn.mod, node.body, env)
+                except _Return:
+                    pass
+                return iter(out)
             try:
                 self.exec_block(fn.mod, node.body, env)
             except _Return as r:
@@ -570,6 +580,12 @@ class Interp:
                 else:
                     d[self.eval(mod, k, env)] = self.eval(mod, v, env)
             return d
+        if isinstance(e, ast.Yield):
+            out, found = env.lookup('__yielded__')
+            if not found:
+                self.unsupported(mod, e, 'yield outside a vetted generator')
+            out.append(self.eval(mod, e.value, env) if e.value is not None else None)
+            return None
         if isinstance(e, ast.BinOp):
             op = _BINOPS.get(type(e.op))
             if op is None:
